@@ -441,11 +441,11 @@ func Update(ctx context.Context, scope *ReferenceScope, query parser.UpdateQuery
 	}
 
 	// A table may be listed under several aliases (self join). The tables to update
-	// are keyed by the identified path, the key they are stored back under, so that
+	// are keyed by the table the alias was resolved to, so that
 	// every alias of a table edits the same working copy.
-	viewsToUpdate := make(map[string]*View)
-	updatedCount := make(map[string]int)
-	tablesToUpdate := make(map[string]string)
+	viewsToUpdate := make(map[AliasTarget]*View)
+	updatedCount := make(map[AliasTarget]int)
+	tablesToUpdate := make(map[string]AliasTarget)
 	headersToUpdate := make(map[string]Header)
 	for _, v := range query.Tables {
 		table := v.(parser.Table)
@@ -457,20 +457,20 @@ func Update(ctx context.Context, scope *ReferenceScope, query parser.UpdateQuery
 			return nil, nil, NewAliasMustBeSpecifiedForUpdateError(table.Object)
 		}
 
-		fpath, err := queryScope.GetAlias(tableName)
+		fpath, err := queryScope.AliasTarget(tableName)
 		if err != nil {
 			return nil, nil, err
 		}
-		if len(fpath) < 1 {
+		if len(fpath.Path) < 1 {
 			return nil, nil, NewInlineTableCannotBeUpdatedError(table.Object)
 		}
 		viewKey := strings.ToUpper(tableName.Literal)
 
 		if _, ok := viewsToUpdate[fpath]; !ok {
-			if queryScope.TemporaryTableExists(fpath) {
-				viewsToUpdate[fpath], _ = queryScope.GetTemporaryTable(parser.Identifier{Literal: fpath})
+			if fpath.IsTemporaryTable {
+				viewsToUpdate[fpath], _ = queryScope.GetTemporaryTable(parser.Identifier{Literal: fpath.Path})
 			} else {
-				viewsToUpdate[fpath], err = queryScope.Tx.CachedViews.Get(fpath)
+				viewsToUpdate[fpath], err = queryScope.Tx.CachedViews.Get(fpath.Path)
 				if err != nil {
 					return nil, nil, NewInlineTableCannotBeUpdatedError(table.Object)
 				}
@@ -483,7 +483,7 @@ func Update(ctx context.Context, scope *ReferenceScope, query parser.UpdateQuery
 		}
 	}
 
-	updatesList := make(map[string]map[int]*UintPool)
+	updatesList := make(map[AliasTarget]map[int]*UintPool)
 	seqScope := queryScope.CreateScopeForSequentialEvaluation(view)
 	for i := range view.RecordSet {
 		seqScope.Records[0].recordIndex = i
@@ -644,11 +644,11 @@ func Delete(ctx context.Context, scope *ReferenceScope, query parser.DeleteQuery
 	}
 
 	// A table may be listed under several aliases (self join). The tables to delete
-	// from are keyed by the identified path, the key they are stored back under, so
-	// that every alias of a table removes records from the same working copy.
-	viewsToDelete := make(map[string]*View)
-	deletedIndices := make(map[string]map[int]bool)
-	tablesToDelete := make(map[string]string)
+	// from are keyed by the table the alias was resolved to, so that every alias
+	// of a table removes records from the same working copy.
+	viewsToDelete := make(map[AliasTarget]*View)
+	deletedIndices := make(map[AliasTarget]map[int]bool)
+	tablesToDelete := make(map[string]AliasTarget)
 	for _, v := range query.Tables {
 		// DELETE FROM (t): the single table of the FROM clause may be parenthesized
 		for {
@@ -670,11 +670,11 @@ func Delete(ctx context.Context, scope *ReferenceScope, query parser.DeleteQuery
 			return nil, nil, NewAliasMustBeSpecifiedForUpdateError(table.Object)
 		}
 
-		fpath, err := queryScope.GetAlias(tableName)
+		fpath, err := queryScope.AliasTarget(tableName)
 		if err != nil {
 			return nil, nil, err
 		}
-		if len(fpath) < 1 {
+		if len(fpath.Path) < 1 {
 			return nil, nil, NewInlineTableCannotBeUpdatedError(table.Object)
 		}
 		tablesToDelete[strings.ToUpper(tableName.Literal)] = fpath
@@ -682,10 +682,10 @@ func Delete(ctx context.Context, scope *ReferenceScope, query parser.DeleteQuery
 		if _, ok := viewsToDelete[fpath]; ok {
 			continue
 		}
-		if queryScope.TemporaryTableExists(fpath) {
-			viewsToDelete[fpath], _ = queryScope.GetTemporaryTable(parser.Identifier{Literal: fpath})
+		if fpath.IsTemporaryTable {
+			viewsToDelete[fpath], _ = queryScope.GetTemporaryTable(parser.Identifier{Literal: fpath.Path})
 		} else {
-			viewsToDelete[fpath], err = queryScope.Tx.CachedViews.Get(fpath)
+			viewsToDelete[fpath], err = queryScope.Tx.CachedViews.Get(fpath.Path)
 			if err != nil {
 				return nil, nil, NewInlineTableCannotBeUpdatedError(table.Object)
 			}
